@@ -349,7 +349,8 @@ fn main() {
     // throughputs
     let cs = counts();
     let ds = tp_durations();
-    let combos: Vec<(usize, bool)> = vec![(0, false), (0, true), (1, false), (2, false), (3, false)];
+    // the byte format only applies to the bytes kind: chars / cycles / items are always decimal
+    let combos: Vec<(usize, bool)> = vec![(0, false), (0, true), (1, false), (2, false), (3, false), (1, true), (2, true), (3, true)];
     par_for((cs.len() * ds.len() * combos.len()) as u64, |i| {
         let i = i as usize;
         let (kind, binary) = combos[i % combos.len()];
@@ -363,6 +364,7 @@ fn main() {
     let dense_tp: u64 = if cli.thorough { 3_000_000 } else { 400_000 };
     par_for(dense_tp, |c| {
         check_throughput(&r, 3, c, S, false);
+        check_throughput(&r, 3, c, S, true);
         check_throughput(&r, 0, c, S, true);
         check_throughput(&r, 0, c * 1024 + 1023, 3 * NS, true);
         r.case(3);
@@ -387,7 +389,7 @@ fn main() {
     }
     r.set_bounds(json!({
         "durations": {"dense_below_ps": dense, "boundary_values": values.len(), "widths": [0, 8, 14]},
-        "throughputs": {"counts": cs.len(), "durations": ds.len(), "kinds": ["bytes decimal","bytes binary","chars","cycles","items"], "dense_rates": dense_tp},
+        "throughputs": {"counts": cs.len(), "durations": ds.len(), "kinds": ["bytes decimal","bytes binary","chars","cycles","items","chars/cycles/items with the binary byte format configured (must stay decimal)"], "dense_rates": dense_tp},
         "bytes": {"dense": dense_bytes, "denominators": [1,2,3,1000]},
         "tolerance": "durations exact; bytes/throughputs: rendering of a real within 1e-9 relative of the exact rational (neighbouring truncation or prefix)"
     }));
